@@ -222,6 +222,20 @@ WIDTH_BIN = r'''
 use std::io::BufRead;
 use unicode_width::UnicodeWidthChar;
 fn main() {
+    if std::env::args().nth(1).as_deref() == Some("--ranges") {
+        // maximal ranges of scalar values with the same answer, for every answer other than Some(1)
+        let mut start = 0u32;
+        let mut cur: Option<Option<usize>> = None;
+        for cp in 0u32..=0x110000 {
+            let w = char::from_u32(cp).map(|c| c.width());
+            if w != cur {
+                if let Some(x) = cur { if x != Some(1) { println!("{} {} {}", start, cp - 1, match x { None => "-".to_string(), Some(k) => k.to_string() }); } }
+                start = cp;
+                cur = w;
+            }
+        }
+        return;
+    }
     let stdin = std::io::stdin();
     for line in stdin.lock().lines() {
         let cp: u32 = line.unwrap().trim().parse().unwrap();
@@ -390,6 +404,16 @@ pub fn dispatch(m: usize, input: &[char], start: u8, prepeek: bool, script: Vec<
         if code != 0:
             raise BuildError('ranges helper failed: ' + err[-500:])
         return {k: [tuple(x) for x in v] for k, v in json.loads(out).items()}
+
+    def width_ranges(self):
+        """[(lo, hi, None|int)] for all scalar values whose unicode-width answer is not Some(1)"""
+        code, out, err = run([os.path.join(self.dir, 'target', 'debug', 'width'), '--ranges'], timeout=120)
+        res = []
+        for l in out.split('\n'):
+            t = l.split()
+            if len(t) == 3:
+                res.append((int(t[0]), int(t[1]), None if t[2] == '-' else int(t[2])))
+        return res
 
     def widths(self, cps):
         code, out, err = run([os.path.join(self.dir, 'target', 'debug', 'width')], input='\n'.join(str(c) for c in cps) + '\n', timeout=60)
